@@ -196,7 +196,7 @@ def cond_value(n, env):
     return None
 
 
-def executed(stmts, env, unknown=None):
+def executed(stmts, env, unknown=None, evaluator=None):
     """Simple statements executed by a statement list under env (If pruned by cond_value; loops and
     unknown conditions keep all branches). Yields (stmt, guards) where guards is the list of
     (condition node, taken value) of the enclosing evaluated ifs."""
@@ -212,7 +212,7 @@ def executed(stmts, env, unknown=None):
                     break
             return
         if s.k == 'IfStmt':
-            v = cond_value(s.child('cond'), env)
+            v = evaluator(s.child('cond')) if evaluator is not None else cond_value(s.child('cond'), env)
             out.append((s.child('cond'), guards))
             if v is True:
                 go(s.child('then'), guards + [(s.child('cond'), True)])
